@@ -53,6 +53,9 @@ type Call struct {
 	// Alias (run): input name -> other input name whose very tensor OBJECT is passed for it too (the two hold equal
 	// values; the caller made one tensor and passed it twice).
 	Alias map[string]string `json:"alias,omitempty"`
+	// CarryBacking (pieces): the caller carries the state as the plain slice it got from Data() and wraps it in a NEW
+	// tensor for the next piece; the tensor object Run returned is dropped.
+	CarryBacking bool `json:"carry_backing,omitempty"`
 	// CarryAll (feedback): the caller also leaves every tensor of call Ref's result map in the input map, under its
 	// output name (a streaming loop that does `inputs = merge(prevOutputs, newInputs)`).
 	CarryAll bool `json:"carry_all,omitempty"`
@@ -80,6 +83,10 @@ type World struct {
 	CopyModels bool `json:"copy_models,omitempty"`
 	// MapSeed seeds the map-iteration-order seam of instrumented builds.
 	MapSeed uint64 `json:"map_seed"`
+	// Collect (serial engines): after every call the caller lets go of every tensor it will not pass again (inputs
+	// and outputs of earlier calls that no later call of its script refers to; of a piece, everything but the carried
+	// states), and a garbage collection including a finalizer pass happens - memory pressure at the worst moment.
+	Collect bool `json:"collect,omitempty"`
 	// Env: environment variables (of those the code under test reads) set while the world executes; the references
 	// are computed without them - a result must not depend on them.
 	Env map[string]string `json:"env,omitempty"`
